@@ -44,7 +44,7 @@ Fixpoint assoc {A} (k : Z) (l : list (Z * A)) : option A :=
   | (k', v) :: r => if k =? k' then Some v else assoc k r
   end.
 
-Definition tol : Z := 1000000000.   (* 1 s on instants *)
+Definition tol : Z := 3000000000.   (* 3 s on instants *)
 
 Definition sess_agree (m : option (Z * Z)) (o : option (Z * Z)) : bool :=
   match m, o with
